@@ -33,6 +33,14 @@ GUARD = "BITS_VERIF_CURVE"
 
 
 # ----------------------------------------------------------------------------- helpers
+def as_tuple(v):
+    """tuple(v) for a list / tuple the library returned; anything else (None from a torn memo, a string, ...) becomes a
+    1-tuple that equals no expectation - the comparison then reports the odd result instead of crashing the judge"""
+    if isinstance(v, (list, tuple)):
+        return tuple(v)
+    return ("<not a sequence>", repr(v)[:80])
+
+
 def filler(seed: int, label: str, n: int) -> bytes:
     """Deterministic filler bytes: selects *contents* only, never which cases are explored."""
     pre = f"{seed}|{label}|".encode()
